@@ -50,8 +50,9 @@ CLAIMS = {
                  "receiver unchanged, never raises; the selection kernel returns the FIRST object at/after the cursor whose benefit reaches the tolerance and advances the cursor "
                  "(any container size); benefits non-negative. BOUNDED: whole-container tiling, tree level rule incl. rebalancing, coarsening/lmax bookkeeping, exact split set per step."),
     "C07": mixed("PROVED for d in {1,2,3} with symbolic coordinates: split_area_single_dim / split_area_arbitrary_dim children lie inside the parent, have pairwise disjoint "
-                 "interiors and volumes summing to the parent's; refine() (split-then-extend policy): extend keeps the box, coarsening max(c-1,0)>=0, scheme grows exactly when c==0; "
-                 "update keeps coarsening>=0. BOUNDED: coarsen_grid local combination validity (exhaustive d<=4), whole histories incl. automatic/single-dim policies, point assignment."),
+                 "interiors and volumes summing to the parent's; refine() for d in {1,2} under all three policies (split-then-extend, automatic extend/split by parent benefits, "
+                 "splitSingleDim by twin errors): the outcome is either one area with the same box and coarsening >= 0 or 2^k areas tiling the parent with unchanged coarsening, never an exception; "
+                 "update keeps coarsening>=0. BOUNDED: coarsen_grid local combination validity (exhaustive d<=4), whole histories, point assignment."),
     "C08": mixed("PROVED (trapezoidal family, all levels/boxes/flags): announced count == returned points == weights, points inside the box, boundary-off drops exactly global "
                  "boundary points. BOUNDED: all families (Trapezoidal, Simpson, Clenshaw-Curtis, Leja, Gauss-Legendre, Lagrange, B-spline) d<=3: counts, containment, weight sum, "
                  "polynomial exactness to the nominal degree."),
@@ -82,7 +83,9 @@ CLAIMS = {
     "C18": bounded("numpy/sklearn-based bookkeeping mostly outside the verified subset (PROVED kernel: split_pieces cuts samples and labels at the same index, prefix/suffix, "
                    "nothing lost); BOUNDED (deciding): random operation sequences (<=8 ops over 14 operations) on data sets incl. empty, single, ties, "
                    "unlabelled: range ends, revert restores, multiset of (sample,label) preserved, attributes carried, refusals without modification."),
-    "C19": bounded("BOUNDED: synthetic labelled sets, standard and dimension-wise learning, sequences of __call__/test_data with data inside/partly/entirely outside: arg-max clause "
+    "C19": bounded("PROVED kernel (any number of samples): Classification._evaluate reports wrong == number of positions where assigned class and true label differ, "
+                   "total == number of classified samples, percentage == 1 - wrong/total, and refuses only when the two lengths differ. "
+                   "BOUNDED (deciding): synthetic labelled sets, standard and dimension-wise learning, sequences of __call__/test_data with data inside/partly/entirely outside: arg-max clause "
                    "against independently evaluated per-class densities, out-of-range removal, summary consistency, history stability."),
     "C20": bounded("BOUNDED: normal equations residual on every component grid, design matrix == basis values, C == gradient Gram matrix (own exact reference) incl. anisotropic level "
                    "vectors, PSD, every coefficient optimisation variant sums to one; standard and dimension-wise training, d<=3."),
